@@ -302,6 +302,21 @@ func (rp *Replayer) apply(h History, st *replayState) (bool, error) {
 					rp.issue(h, KUnreadable, "operation %s was accepted although the model refuses it, and branch %q can no longer be read: %v", h[len(h)-1:], b, err)
 				}
 			}
+			// A merge the real lake accepts must still satisfy the property's own formula,
+			// whatever the as-coded model says: parent' = parent + (what the child added since
+			// the common ancestor and the parent has not itself added) - (what the child deleted).
+			if s.Op == "merge" {
+				if rows, err := rp.scan(st, s.B); err == nil {
+					base := bagOf(st.cdata[s.Base])
+					par, ch := bagOf(s.Data[s.B]), bagOf(s.Data[s.Child])
+					want := bagSub(bagAdd(par, bagSub(bagSub(ch, base), bagSub(par, base))), bagSub(base, ch))
+					got := bagOf(uids(rows))
+					if !bagEq(got, want) {
+						rp.issue(h, KContents, "merge of %q into %q was accepted (the model refuses it) and %q now holds values %v, but its previous data %v plus what the child added since the common ancestor c%d minus what the child deleted is %v",
+							s.Child, s.B, s.B, bagList(got), bagList(par), s.Base, bagList(want))
+					}
+				}
+			}
 			rp.issue(h, KResult, "real lake accepted an operation the model refuses: %s", h[len(h)-1:])
 		} else {
 			rp.issue(h, KResult, "real lake refused an operation the model accepts: %s: %v", h[len(h)-1:], opErr)
@@ -702,6 +717,58 @@ func sortedIntKeys(m map[int]ksuid.KSUID) []int {
 	var out []int
 	for k := range m {
 		out = append(out, k)
+	}
+	sort.Ints(out)
+	return out
+}
+
+func bagOf(xs []int) map[int]int {
+	m := map[int]int{}
+	for _, x := range xs {
+		m[x]++
+	}
+	return m
+}
+
+func bagAdd(a, b map[int]int) map[int]int {
+	m := map[int]int{}
+	for k, v := range a {
+		m[k] += v
+	}
+	for k, v := range b {
+		m[k] += v
+	}
+	return m
+}
+
+func bagSub(a, b map[int]int) map[int]int {
+	m := map[int]int{}
+	for k, v := range a {
+		if v-b[k] > 0 {
+			m[k] = v - b[k]
+		}
+	}
+	return m
+}
+
+func bagEq(a, b map[int]int) bool {
+	if len(a) != len(b) {
+		return false
+	}
+	for k, v := range a {
+		if b[k] != v {
+			return false
+		}
+	}
+	return true
+}
+
+func bagList(a map[int]int) []int {
+	var out []int
+	for k, v := range a {
+		for i := 0; i < v; i++ {
+			out = append(out, k)
+		}
 	}
 	sort.Ints(out)
 	return out
